@@ -2,8 +2,8 @@ import Pi2.MM.ConvSugarCtors
 /-!
 # `dbOfMDb` on databases of the shape `FragmentShape`: `attachAll` succeeds and the result is well formed
 
-`spec_wf`: for a database of the shape whose `#Notation` heads are neither `\imp` nor `\app` (`headsPlain`; `FragmentShape` alone does
-NOT exclude a `#Notation` statement for `\imp`, which `attach` rejects: `Pi2/Props/C16c.lean`, `notation_for_imp_rejected`), the
+`spec_wf`: for a database of the shape (its clause `headsPlain` — the `#Notation` heads are neither `\imp` nor `\app` — is used: a
+`#Notation` statement for `\imp` is rejected by `attach`: `Pi2/Props/C16c.lean`, `notation_for_imp_rejected`), the
 specification `dbOfMDb` is the core specification of the database without its `#Notation` statements, with another constructor table
 `db.ctors` that differs in the bodies only, and `DB.wf` holds.
 -/
@@ -284,18 +284,16 @@ theorem wf0_ctors (db : DB) (f : Ctor → Ctor) (hf : ∀ k, (f k).args = k.args
   unfold DB.wf0
   simp only [List.all_map, Function.comp_def, hf]
 
-/-- no `#Notation` statement for `\imp` or `\app` -/
-def headsPlain (mdb : MDb) : Bool := (sugarsOf mdb).all fun sg => sg.2.1 != "\\imp" && sg.2.1 != "\\app"
-
 /-- **`dbOfMDb` on a database of the shape**: the core specification of the database without its `#Notation` statements, with a
 constructor table that differs in the bodies only; the database is well formed -/
-theorem spec_wf (mdb : MDb) (target : String) (h : FragmentShape mdb target = true) (hp : headsPlain mdb = true) :
+theorem spec_wf (mdb : MDb) (target : String) (h : FragmentShape mdb target = true) :
     ∃ sp0 db, dbOfCore (coreOf mdb) target = some sp0 ∧ Coherent (coreOf mdb) target sp0 ∧
       dbOfMDb mdb target = some { sp0 with db := db } ∧
       (∃ f : Ctor → Ctor, (∀ k, (f k).sym = k.sym ∧ (f k).args = k.args) ∧ db = { sp0.db with ctors := sp0.db.ctors.map f }) ∧
       db.wf = true := by
+  have hp : headsPlain mdb = true := headsPlain_of_fragmentShape h
   simp only [FragmentShape, Bool.and_eq_true, decide_eq_true_eq, List.all_eq_true, beq_iff_eq] at h
-  obtain ⟨⟨⟨⟨⟨⟨hcore, _⟩, hhnd⟩, hcount⟩, hordS⟩, hsug⟩, _⟩ := h
+  obtain ⟨⟨⟨⟨⟨⟨⟨hcore, _⟩, hhnd⟩, hcount⟩, hordS⟩, hsug⟩, _⟩, _⟩ := h
   obtain ⟨sp, hsp, hcoh, hwf⟩ := coherence (coreOf mdb) target hcore
   have S := shaped_of hcore
   obtain ⟨hnm, hct, hbodies⟩ := ctors_of_core hcore hsp
